@@ -320,6 +320,31 @@ def impl_ret_of(s, t, got):
     return True
 
 
+class Sub:
+    """per-thread view of the check context: own counters and drift list (merged afterwards), everything else shared"""
+    def __init__(self, ctx):
+        self._c, self.cov, self.drift = ctx, {}, []
+
+    def add(self, key, n=1):
+        self.cov[key] = self.cov.get(key, 0) + n
+
+    def __getattr__(self, a):
+        return getattr(self._c, a)
+
+    def merge(self):
+        for k, v in self.cov.items():
+            self._c.add(k, v)
+        self._c.drift += self.drift
+
+
+# (edge-dump config of MC_StoreMapImpl, driver configuration with the same initial state)
+T1_QUICK = [('MC_StoreMapImpl_qw_edges.cfg', 'n=2 keys=1 maxw=1'), ('MC_StoreMapImpl_qa_edges.cfg', 'n=2 keys=1 maxw=1'),
+            ('MC_StoreMapImpl_qf1_edges.cfg', 'n=2 keys=1 maxw=1 pre=1:1'), ('MC_StoreMapImpl_qf2_edges.cfg', 'n=2 keys=1 maxw=1 pre=1:1'),
+            ('MC_StoreMapImpl_qu1_edges.cfg', 'n=3 keys=1 maxw=1 maxu=1 pre=1:2'), ('MC_StoreMapImpl_qu2_edges.cfg', 'n=3 keys=1 maxw=1 maxu=1 pre=1:2')]
+T1_THOROUGH = [('MC_StoreMapImpl_wr_edges.cfg', 'n=2 keys=1 maxw=1'), ('MC_StoreMapImpl_rf_edges.cfg', 'n=2 keys=1 maxw=1 pre=1:1'),
+               ('MC_StoreMapImpl_u_edges.cfg', 'n=3 keys=1 maxw=1 maxu=1 pre=1:2')]
+
+
 def edge_replay(ctx, exe, cfgname, drv_cfg, max_edges):
     r = vlib.tlc(ctx, os.path.join(SPEC, 'MC_StoreMapImpl.tla'), os.path.join(SPEC, cfgname), workers=1, record=False, heap='4g')
     if not r.clean:
@@ -414,6 +439,9 @@ def scenario_runs(T, seed):
         runs.append(('al', 'X 2 3 3000000 100000 ' + c, c))
         c = 'n=3 keys=1,4 maxw=1 pre=1:1 kinds=ow,ws,cw,or,rs,cr,cf,fk,fe'
         runs.append(('al', 'X 2 3 3000000 100000 ' + c, c))
+    # --- the two findings on the unchanged code, with the driver monitor in strict mode: exact schedules for the report ---
+    X(2, ['u:1', 'f:1+r0:1'], pre + ' strict=1', hcap=0)
+    X(2, ['r:1', 'u:1+f:1'], pre + ' strict=1', variant='al', hcap=0)
     # --- T2: random walks, 4 fibers, 4 keys, 8 slices ---
     nw = 3000 if T else 300
     wc = 'n=8 keys=1,2,3,9 maxw=3 pre=1:2,2:1'
@@ -430,12 +458,27 @@ def run(ctx):
     ctx.log('drivers built:', exes['rl'], exes['al'])
     pool = concurrent.futures.ThreadPoolExecutor(max_workers=vlib.NCPU)
 
-    # 1. design step: the P-layer model-checked standalone (guards maintain the invariants of the statement)
+    # 1. design step: the P-layer model-checked standalone (the guards maintain the invariants of the statement) and the
+    #    I-layer with its ghost invariants (spurious lock failures on)
     mc = os.path.join(SPEC, 'MC_StoreIndex.tla')
-    mcs = [(mc, 'MC_StoreIndex_q.cfg'), (mc, 'MC_StoreIndex_qu.cfg')] + ([(mc, 'MC_StoreIndex.cfg')] if T else [])
+    mi = os.path.join(SPEC, 'MC_StoreMapImpl.tla')
+    mcs = [(mc, 'MC_StoreIndex_q.cfg'), (mc, 'MC_StoreIndex_qu.cfg'), (mi, 'MC_StoreMapImpl_2c.cfg'), (mi, 'MC_StoreMapImpl_u.cfg')]
+    if T:
+        mcs += [(mc, 'MC_StoreIndex.cfg'), (mi, 'MC_StoreMapImpl_2.cfg')]
     if ctx.replay:
         mcs = []
     mc_f = [pool.submit(vlib.tlc_must_pass, ctx, m, os.path.join(SPEC, c), workers=2, heap='6g', timeout=2400) for m, c in mcs]
+
+    # 1b. T1: edges of the I-graphs on the real code (lock operations as single steps); quick: a seeded sample of each graph
+    def t1(cfgname, drv_cfg):
+        sub = Sub(ctx)
+        try:
+            edge_replay(sub, exes['al'], cfgname, drv_cfg, 20000 if T else 500)
+        except MachineryError as e:
+            # an implementation that left the I-layer far enough to break the replay itself: drift, the P-layer decides below
+            sub.drift.append('edge replay of %s could not be completed: %s' % (cfgname, str(e)[:300]))
+        return sub
+    t1_f = [pool.submit(t1, c, d) for c, d in (T1_QUICK + (T1_THOROUGH if T else []))] if not ctx.replay else []
 
     # 2. exploration of the real code
     runs = scenario_runs(T, ctx.seed)
@@ -484,6 +527,8 @@ def run(ctx):
     for (m, c), f in zip(mcs, mc_f):
         res = f.result()
         ctx.log('TLC %s: %d distinct states, depth %d' % (c, res.distinct, res.depth))
+    for f in t1_f:
+        f.result().merge()
     glist = []
     for (n, keys), (lines, origin) in sorted(groups.items()):
         if lines:
@@ -532,7 +577,9 @@ def run(ctx):
     ctx.cov['histories_not_sent_to_tlc'] = sum(st.get('histories', 0) - st.get('histories_printed', 0) for st, _, _ in results if 'histories' in st)
     ctx.cov['rule'] = (
         'TLC BFS of StoreIndex (P: 2 processes x 2 anchors, every result each call may produce; core operations, and the update '
-        'cycle from a stored entry%s); bounded exhaustive schedule exploration of the real Ipc::StoreMap over the real '
+        'cycle from a stored entry%s) and of StoreMapImpl (I: one action per shared access of all 16 calls, 2 processes x 2-3 calls, '
+        'spurious lock failures, ghost invariants); edges of the I-graphs replayed on the real code with lock operations as single '
+        'steps (state and result equality; quick: seeded sample of 500 per graph); bounded exhaustive schedule exploration of the real Ipc::StoreMap over the real '
         'Ipc::ReadWriteLock at atomic granularity (2-3 fibers running scripts of public calls: write, append, abort, read, '
         'read-and-free-idle, freeEntry, freeEntryByKey, purgeOne, update, abort update; name collisions; entries stored before) '
         'and with lock operations as single steps (3 fibers, every protocol-respecting call sequence of bounded length); seeded '
